@@ -100,6 +100,16 @@ AlphaC05X == {E(t, "OHe", <<>>) : t \in {1, 2, 3, 4}}
    event pair per tracking mode: ovni flush (ANY), kernel context switch
    (ANY, stack), MPI function (RUN), NODES subsystem (ACT) ---- *)
 G(th, mc, m) == [th |-> th, m |-> m, mc |-> mc, a |-> <<>>, j |-> FALSE]
+\* C04/C05 with the kernel model: a thread that the kernel has switched out (KCO .. KCI) is still RUNNING for
+\* the thread state machine and still occupies its CPU (the properties know nothing of kernel preemption)
+SysCK == [threads |-> <<Th(101, 1001, 1, 1), Th(102, 1001, 1, 1)>>,
+          cpus |-> <<Cpu(1, 0, 11, FALSE), Cpu(1, 1, 10, FALSE), Cpu(1, -1, -1, TRUE)>>,
+          marks |-> <<>>, models |-> {"O", "K"}]
+AlphaCK == {E(t, m, <<>>) : t \in {1, 2}, m \in {"OHp", "OHr", "OHe"}}
+           \cup {E(t, "OHx", <<c, 101, 7>>) : t \in {1, 2}, c \in {0, 1}}
+           \cup {G(t, "K", m) : t \in {1, 2}, m \in {"KCO", "KCI"}}
+           \cup {E(1, "OAr", <<c, 102>>) : c \in {0, 1}} \cup {E(2, "OAs", <<c>>) : c \in {0, 1}}
+
 SysC06 == [threads |-> <<Th(101, 1001, 1, 1), Th(102, 1001, 1, 1)>>,
            cpus |-> <<Cpu(1, 0, 11, FALSE), Cpu(1, 1, 10, FALSE), Cpu(1, -1, -1, TRUE)>>,
            marks |-> <<>>, models |-> {"O", "K", "M", "D"}]
